@@ -20,10 +20,11 @@ import (
 )
 
 type replayCase struct {
-	Kind string           `json:"kind"`
-	Sc   *sysrun.Scenario `json:"scenario,omitempty"`
-	DC   *dconc.DCase     `json:"dcase,omitempty"`
-	KC   *keyCase         `json:"keycase,omitempty"`
+	Kind string                 `json:"kind"`
+	Sc   *sysrun.Scenario       `json:"scenario,omitempty"`
+	DC   *dconc.DCase           `json:"dcase,omitempty"`
+	KC   *keyCase               `json:"keycase,omitempty"`
+	SR   *dconc.StoreRaceParams `json:"storerace,omitempty"`
 }
 
 func coqLabels(ls model.LabelSet) string {
@@ -174,7 +175,27 @@ func TestCheck(t *testing.T) {
 		}
 		runC.Rep.Distribution["dconc"] = stats
 	}
-	if len(dcs) > 0 || env.Replay == "" {
+	// judged engine with real parallelism: insert vs. the successful flush's delete-and-destroy on one group's store
+	// (the atomic actions of Model/DispatchConc.v); an accepted insert must never end up in a destroyed group
+	srp := dconc.StoreRaceParams{Seed: env.Seed, Rounds: env.N(150, 6), Resolved: 4000, Inserters: 8, CapMillis: 4000}
+	if env.Replay != "" {
+		srp.Rounds = 0
+		var rc replayCase
+		if err := vh.LoadReplayCase(env.Replay, &rc); err == nil && rc.SR != nil {
+			srp = *rc.SR
+		}
+	}
+	if srp.Rounds > 0 {
+		sst, sv := dconc.StoreRace(srp)
+		runC.CountN("store_race", "rounds", sst.Rounds)
+		runC.CountN("store_race", "inserts linearised before the flush", sst.InsertBefore)
+		runC.CountN("store_race", "inserts refused (group destroyed)", sst.InsertRefused)
+		for _, v := range sv {
+			runC.Violate(v.Key, v.What, v.Case)
+		}
+	}
+
+	if len(dcs) > 0 || env.Replay == "" || srp.Rounds > 0 {
 		if err := runC.Finish("hook-driven schedules (2 workers x 2-3 alerts x maintenance sweep x flush) of the group-map machine on the real dispatcher"); err != nil {
 			t.Fatal(err)
 		}
